@@ -915,6 +915,26 @@ fn edge_boundary_cases() -> Vec<ECase> {
         es[pos] = vec![(2, 2), (2, 2)];
         out.push(ecase("many_candidates", es, None, None, None, query_of(Some((3, 1)), Some((80 + 8 * 4 + 1, 80 + 8 * 7)), &[])));
     }
+    // regression for the defect fixed by "edge map matching compares the tolerance with a great-circle distance":
+    // 10 m tolerance, a coordinate hundreds of km away must not match (it did: squared degrees vs metres)
+    for q in [(32, 32), (64, 64), (1, 1)] {
+        out.push(ecase("d_edgetol_regression", vec![vec![(0, 0), (2, 0)]], None, None, Some((10f64.to_bits(), Some("meters"))), query_of(Some(q), None, &[])));
+    }
+    // more high-latitude layouts where the nearer-by-degrees edge is excluded and beyond the tolerance
+    for (lat, k) in [(70i64, 1usize), (75, 2), (84, 3)] {
+        let y = lat * 16;
+        let mut es = vec![vec![(47, y), (49, y)]]; // A = (3, lat): far by degrees, near by great circle
+        for j in 0..k as i64 {
+            es.push(vec![(j, y + 39), (j, y + 41)]); // B_j = (j/16, lat + 2.5)
+        }
+        let pq = (0, y);
+        let d_a = hav(pq, (48, y)).unwrap();
+        let d_b = hav(pq, (0, y + 40)).unwrap();
+        assert!(d_a < d_b);
+        let mut cl = vec![1u8];
+        cl.extend(std::iter::repeat(2u8).take(k));
+        out.push(ecase("high_latitude_excluded_far", es, Some(cl), None, Some((tol_for((d_a + d_b) / 2.0, "feet", 1.0), Some("feet"))), with(query_of(Some(pq), None, &[]), "road_classes", json!([1]))));
+    }
     // coordinate outside the haversine range
     out.push(ecase("out_of_range", line.clone(), None, None, None, query_of(Some((-1680, 1500)), None, &[])));
     out.push(ecase("out_of_range", line.clone(), None, None, Some((1e12f64.to_bits(), Some("meters"))), query_of(Some((-1680, 1500)), None, &[])));
